@@ -21,7 +21,7 @@ CFG = dict(
     trusted_base=["the ticker-driven flushes and the bufio layer do not change what a file contains once it is closed (flush abstracted)",
                   "time stamps written by the code itself (time.Now()) are only checked to lie inside the case's wall-clock window; caller-supplied time stamps are compared exactly",
                   "request strings and labels are byte strings; the WriteControl dispatch is the C06 model's classify (ASCII)"],
-    assumptions=["a START is 'valid' when it selects LJH2.2 (the other START checks - paths, projectors - are C06's subject); every START names the same base path",
+    assumptions=["a START is 'valid' when it selects some file type and, if OFF is among them, some channel has projectors (projectors sit on any subset of the 1..4 channels; every type combination incl. OFF-only is asked for); with a valid START 'writing already in progress' is exactly 'a run is active'; every START names the same base path (paths are C06's subject)",
                  "file-creation failures (which make the core loop panic by design, DESIGN section 7 item 15) are outside the quantifier",
                  "labels are set with WaitForError=true (the fire-and-forget variant panics on a refused label by design; C11's subject)"],
     timeout=dict(quick=900, thorough=3600),
